@@ -43,7 +43,8 @@ for n in ("0", "2", "4"):
 for n, t in (("0", "quick"), ("3", "quick"), ("5", "quick"), ("8", "quick"), ("16", "thorough")):
     H("dec_body_" + n, ["C01", "C07"], "core", *DEC, tier=t,
       obligation="D1/T2: body phase: message iff len bytes buffered; decode view is exactly the payload bytes",
-      functions=DEC_FUNCS + ["tonic::codec::buffer::DecodeBuf"], bounds="all %s-byte buffers, len <= %s" % (n, "8" if int(n) <= 8 else "16"))
+      functions=DEC_FUNCS + ["tonic::codec::buffer::DecodeBuf"], bounds="all %s-byte buffers, len <= %s" % (n, "8" if int(n) <= 8 else "16"),
+      may_be_uncovered=["payload incomplete"] if int(n) >= 8 else [])
 for n, t in (("0", "quick"), ("1", "quick"), ("6", "quick")):
     H("pf_eof_" + n, ["C07"], "core", *DEC, tier=t,
       obligation="T1a: body ended: leftover bytes => INTERNAL error, none => clean end, never Pending",
@@ -138,7 +139,7 @@ for nm, b, t, cap in (("1", "all 1-byte header-legal values", "quick", 600), ("2
                  "anything else ignored), no panic",
       functions=["tonic::transport::service::grpc_timeout::try_parse_grpc_timeout", "http::HeaderMap::{insert,get(&str)}"],
       bounds="grpc-timeout value: " + b,
-      may_be_uncovered=(["well-formed value parsed"] if nm == "1" else []) + (["well-formed value parsed", "malformed value ignored"] if nm == "absent" else []))
+      may_be_uncovered=(["well-formed value parsed"] if nm in ("1", "tail_10") else []) + (["well-formed value parsed", "malformed value ignored"] if nm == "absent" else []))
 H("gt_select_min", ["C09"], "transport", *GT, cap_s=1500, mem_gb=28, tier="quick", stubs=[HTTPH, "tokio::time::sleep stubbed: asserts its argument == min(header, configured) and ends the path (no runtime)"],
   obligation="G4: GrpcTimeout::call arms the timer with min(caller grpc-timeout, configured timeout); no timer when both are absent",
   functions=["GrpcTimeout::call", "try_parse_grpc_timeout"],
